@@ -116,7 +116,27 @@ class Lock:
 
 
 # ----------------------------------------------------------------------------- Coq
+COQPROJECT_HEAD = """-Q theories LV
+-arg -w -arg -notation-overridden,-deprecated-hint-without-locality,-deprecated-instance-without-locality
+"""
+
+
+def coq_project():
+    """_CoqProject lists every .v under coq/theories (so adding a file needs no edit)"""
+    files = []
+    for d, _, fs in os.walk(os.path.join(COQ, "theories")):
+        for f in fs:
+            if f.endswith(".v") and not f.startswith("."):
+                files.append(os.path.relpath(os.path.join(d, f), COQ))
+    text = COQPROJECT_HEAD + "\n".join(sorted(files)) + "\n"
+    cp = os.path.join(COQ, "_CoqProject")
+    if not os.path.exists(cp) or open(cp).read() != text:
+        with open(cp, "w") as f:
+            f.write(text)
+
+
 def coq_makefile():
+    coq_project()
     mk = os.path.join(COQ, "Makefile")
     cp = os.path.join(COQ, "_CoqProject")
     if not os.path.exists(mk) or os.path.getmtime(mk) < os.path.getmtime(cp):
@@ -346,10 +366,14 @@ def shrink(case, still_fails, budget=400, fixed_prefix=1):
 
 # ----------------------------------------------------------------------------- findings / evidence
 def load_known():
-    p = os.path.join(ROOT, "known_findings.json")
-    if not os.path.exists(p):
-        return []
-    return json.load(open(p))["findings"]
+    """known_findings/Cxx.json (one file per property, committed, never written at run time)"""
+    d = os.path.join(ROOT, "known_findings")
+    out = []
+    if os.path.isdir(d):
+        for fn in sorted(os.listdir(d)):
+            if fn.endswith(".json"):
+                out += json.load(open(os.path.join(d, fn)))["findings"]
+    return out
 
 
 def case_hash(c):
